@@ -419,6 +419,59 @@ theorem domain_matcher_correct (n : Nat) (log : List AddCall) (name : Str) (rxHi
   simp only [List.mem_range, hi', true_and] at this
   rw [Bool.eq_iff_iff]; exact this
 
+/-- **The `[]uint32` result.** Same quantifiers as `domain_matcher_correct`: the slice has
+`ceil(n/32)` words, every word fits in 32 bits, and bit `i % 32` of word `i / 32` is 1 exactly when some
+valid pattern added under index `i` matches (bits beyond `n` in the last word are 0). -/
+theorem domain_matcher_bitmap_correct (n : Nat) (log : List AddCall) (name : Str) (rxHits : List Nat)
+    (hall : ∀ a ∈ log, callOk n a = true) (hn : plainName name = true) :
+    ∃ b ws, (Matcher.replay n log).build = .ok b ∧ b.matchBitmap name rxHits = some ws ∧
+      ws.length = (n + 31) / 32 ∧ (∀ w ∈ ws, w < 2 ^ 32) ∧
+      ∀ i, (ws.getD (i / 32) 0).testBit (i % 32) = (decide (i < n) && docMatches log i name rxHits) := by
+  obtain ⟨b, hb, hsize, hsets⟩ := build_ok n log hall
+  obtain ⟨b', hb', hiff⟩ := set_matches_iff_some_pattern n log name rxHits hall hn
+  rw [hb] at hb'
+  injection hb' with hb'
+  subst hb'
+  have hbits := matchBits_eq n log b hsize hsets name rxHits
+  generalize hB : ((List.range n).map fun i => (builtOf (setOf log i)).matchesSpec (normName name) rxHits) = bits at hbits
+  have hlen : bits.length = n := by rw [← hB]; simp
+  obtain ⟨p1, p2⟩ := packWords32_spec (bits.length + 1) bits (Nat.lt_succ_self _)
+  refine ⟨b, packWords32 (bits.length + 1) bits, hb, by simp [Built.matchBitmap, hbits], by rw [p1, hlen], ?_, ?_⟩
+  · intro w hw
+    obtain ⟨i, hi, rfl⟩ := List.getElem_of_mem hw
+    have := (p2 i hi).1
+    rwa [List.getElem!_eq_getElem?_getD, List.getElem?_eq_getElem hi] at this
+  · intro i
+    -- the value of bit i of the bit vector
+    have hbit : bitFn bits i = (decide (i < n) && docMatches log i name rxHits) := by
+      by_cases hi : i < n
+      · have hmem := hiff i
+        unfold Built.matchIndicesSpec at hmem
+        simp only [hsize, List.mem_filter, List.mem_range, hi, true_and] at hmem
+        rw [hsets i hi] at hmem
+        simp only [bitFn, ← hB, List.getD_eq_getElem?_getD, List.getElem?_map, List.getElem?_range hi,
+          Option.map_some, Option.getD_some, hi, decide_true, Bool.true_and]
+        rw [Bool.eq_iff_iff]; exact hmem
+      · rw [bitFn_beyond bits i (by omega)]; simp [hi]
+    rw [← hbit]
+    by_cases hw : i / 32 < (packWords32 (bits.length + 1) bits).length
+    · have h2 : ((packWords32 (bits.length + 1) bits)[i / 32]?.getD 0).testBit (i % 32) =
+          bitFn bits (32 * (i / 32) + i % 32) := by
+        have := (p2 (i / 32) hw).2 (i % 32) (Nat.mod_lt _ (by decide))
+        rw [List.getElem!_eq_getElem?_getD] at this
+        exact this
+      rw [List.getD_eq_getElem?_getD, h2]
+      congr 1; omega
+    · rw [List.getD_eq_getElem?_getD, List.getElem?_eq_none (by omega)]
+      simp only [Option.getD_none, Nat.zero_testBit]
+      rw [bitFn_beyond bits i (by rw [p1] at hw; omega)]
+
+/-- Go's `int` index: a negative `bitIndex` is refused exactly like an index beyond the table, so the
+`Nat`-indexed theorems above cover it (`callOk` fails, `Build` reports the oversize error). -/
+theorem negative_index_is_out_of_range (m : Matcher) (idx : Int) (kind : Kind) (pats : List Pat) (h : idx < 0) :
+    m.addSetInt idx kind pats = m.addSet m.sets.size kind pats :=
+  addSetInt_neg m idx kind pats h
+
 /-- for every name, plain or not, the packed tries answer what the trie contract answers -/
 theorem matcher_trie_path_eq_contract (n : Nat) (log : List AddCall) (name : Str) (rxHits : List Nat)
     (hall : ∀ a ∈ log, callOk n a = true) :
